@@ -1,5 +1,9 @@
 // c15: runs ApplyUpdatesUpTo / LineString / LineStringAt / Updates.UpTo / the sorts of the real
-// library on abstract cases from Updates.tla and records what they return.
+// library - and mputil.Group, the consumer of LineStringAt (kind "group", bound through
+// verifharness/internal/c15mp) - on abstract cases from Updates.tla and records what they return.
+// One element is built per case; every ApplyUpdatesUpTo call runs on a copy of it (struct copy with its
+// own child list, the same update list value), the geometry queries run on the element itself before and
+// after its copies were updated.
 // Neutral renderer/recorder: symbol maps only (abstract small integer <-> time.Time, float64
 // coordinate, changeset id, ...); no expected values, no property logic.
 package main
